@@ -391,6 +391,12 @@ def main():
             continue
         if not compare(m, a):
             disagreements.append((payload, m, a))
+        if hasattr(mod, "model_stats"):  # optional: tags computed from the MODEL's answer (e.g. which theorem hypotheses hold)
+            try:
+                for t in mod.model_stats(payload, m):
+                    tags[t] = tags.get(t, 0) + 1
+            except Exception:
+                tags["model-stats-error"] = tags.get("model-stats-error", 0) + 1
         try:
             if mod.nontrivial(payload, a):
                 nontrivial.add(case_hash(payload))
